@@ -20,14 +20,25 @@ ASSUMPTIONS = ["the exact successor of a multi-switch write is left open (only t
                "bulk selection of several switches under OneOfMany/AtMostOne must keep the invariants and must not raise"]
 QUICK_SHARDS = 2
 REQUIRED_EVENTS = ["states", "transitions", "published_updates_judged", "client_writes", "driver_assignments", "bulk_selections",
-                   "client_writes_with_injected_fault", "client_writes_prevented_by_a_write_handler", "writes_in_a_foreign_spelling", "transitions_with_hidden_switches"]
+                   "client_writes_with_injected_fault", "client_writes_prevented_by_a_write_handler", "writes_in_a_foreign_spelling", "transitions_with_hidden_switches", "state_graphs_with_nested_element_names"]
 EXHAUSTIVE_NOTE = "the complete reachable state graph for every rule, 1..5 switches (thorough: 1..7) and every initial configuration, every operation on every node"
 SHARDED = True
 RULES = ["OneOfMany", "AtMostOne", "AnyOfMany"]
 
 
+PLAIN_NAMES = [f"S{i}" for i in range(8)]
+# names contained in one another, as in CONNECT / DISCONNECT, PARK / UNPARK, LOG / LOG_FILE
+NESTED_NAMES = ["CONNECT", "DISCONNECT", "AUTO_DISCONNECT_OFF", "S3", "S4", "S5", "S6", "S7"]
+NESTED_NAMES_REV = ["AUTO_DISCONNECT_OFF", "DISCONNECT", "CONNECT", "S3", "S4", "S5", "S6", "S7"]      # the longer name defined first
+_NAMES = [PLAIN_NAMES]
+
+
+def N(i):
+    return _NAMES[0][i]
+
+
 def make_spec(rule, n, default_on):
-    els = [{"attr": f"s{i}", "name": f"S{i}", "label": None, "default": None, "enabled": True} for i in range(n)]
+    els = [{"attr": f"s{i}", "name": N(i), "label": None, "default": None, "enabled": True} for i in range(n)]
     vec = {"attr": "sw", "kind": "Switch", "name": "SW", "label": None, "state": None, "perm": None, "timeout": None, "enabled": True,
            "rule": rule, "default_on": default_on, "elements": els}
     return {"name": "DEV", "levels": [{"groups": [{"attr": "g", "name": "G", "enabled": True, "vectors": [vec]}]}]}
@@ -85,21 +96,21 @@ def apply_op(router, rec, drv, vec, n, op):
     from indi.message import one_parts
     kind = op[0]
     if kind in ("client1", "clientN"):
-        children = tuple(one_parts.OneSwitch(name=f"S{i}", value=v) for i, v in op[1])
+        children = tuple(one_parts.OneSwitch(name=N(i), value=v) for i, v in op[1])
         router.process_message(M.NewSwitchVector(device="DEV", name="SW", children=children), sender=rec)
     elif kind == "value":
         getattr(vec, f"s{op[1]}").value = op[2]
     elif kind == "bool":
         getattr(vec, f"s{op[1]}").bool_value = op[2]
     elif kind == "selected":
-        vec.selected_value = f"S{op[1]}"
+        vec.selected_value = N(op[1])
     elif kind == "selecteds":
-        vec.selected_values = [f"S{i}" for i in op[1]]
+        vec.selected_values = [N(i) for i in op[1]]
 
 
 def explore(ctx, rule, n, init, explored=None):
     from indi.routing import Router
-    default_on = [f"S{i}" for i, b in enumerate(init) if b]
+    default_on = [N(i) for i, b in enumerate(init) if b]
     if rule != "AnyOfMany":
         default_on = default_on[0] if default_on else None
     spec = make_spec(rule, n, default_on or None)
@@ -133,7 +144,7 @@ def explore(ctx, rule, n, init, explored=None):
     router.register_client(rec)
     vec = D.vector_of(drv, "g", "sw")
     start = read_state(vec, n)
-    cfg = {"rule": rule, "n": n, "init": list(init)}
+    cfg = {"rule": rule, "n": n, "init": list(init), "nested_names": {id(NESTED_NAMES): 1, id(NESTED_NAMES_REV): 2}.get(id(_NAMES[0]), 0)}
     if start != tuple(init):
         ctx.violate("default_on-not-honoured", f"initial configuration {init} gives state {start}", cfg)
         return
@@ -149,21 +160,21 @@ def explore(ctx, rule, n, init, explored=None):
         node = queue.pop(0)
         ctx.count("states")
         for op in ops:
-            vec.reset_selected_values([f"S{i}" for i, b in enumerate(node) if b])
+            vec.reset_selected_values([N(i) for i, b in enumerate(node) if b])
             del rec.received[:]
             case = dict(cfg, node=list(node), op=[op[0]] + [list(x) if isinstance(x, tuple) else x for x in op[1:]])
             ctx.count("transitions")
             ctx.count({"client1": "client_writes", "clientN": "client_writes", "value": "driver_assignments", "bool": "driver_assignments",
                        "selected": "bulk_selections", "selecteds": "bulk_selections", "fault-change": "client_writes", "fault-delivery": "client_writes", "fault-veto": "client_writes",
                        "spelled-client": "client_writes", "spelled-value": "driver_assignments"}[op[0]])
-            ctx.case_fast((rule, n, node, op))
+            ctx.case_fast((rule, n, node, op, _NAMES[0][0]))
             if op[0].startswith("spelled-"):
                 ctx.count("writes_in_a_foreign_spelling")
                 try:
                     if op[0] == "spelled-client":
                         from indi import message as M
                         from indi.message import one_parts
-                        router.process_message(M.NewSwitchVector(device="DEV", name="SW", children=(one_parts.OneSwitch(name=f"S{op[1]}", value=op[2]),)), sender=rec)
+                        router.process_message(M.NewSwitchVector(device="DEV", name="SW", children=(one_parts.OneSwitch(name=N(op[1]), value=op[2]),)), sender=rec)
                     else:
                         getattr(vec, f"s{op[1]}").value = op[2]
                 except Exception:
@@ -232,6 +243,12 @@ def explore(ctx, rule, n, init, explored=None):
                         break
             if rule == "AnyOfMany" and op[0] == "selecteds" and post != tuple(j in op[1] for j in range(n)):
                 ctx.violate("any-of-many-selection-wrong", f"{op} in {node} -> {post}", case)
+            if rule == "AnyOfMany" and op[0] == "selected":
+                # "select this one": the named switch is On; the others are either left alone or all Off - never anything else
+                others_same = all(post[j] == node[j] for j in range(n) if j != op[1])
+                others_off = not any(post[j] for j in range(n) if j != op[1])
+                if not post[op[1]] or not (others_same or others_off):
+                    ctx.violate("any-of-many-selection-wrong:single", f"selected_value = {N(op[1])!r} in {node} -> {post}", case)
             # every published update
             prev = node
             for m in rec.received:
@@ -239,7 +256,7 @@ def explore(ctx, rule, n, init, explored=None):
                     continue
                 ctx.count("published_updates_judged")
                 pub = {c.name: c.value for c in m.children}
-                pstate = tuple(pub.get(f"S{j}") == "On" for j in range(n))
+                pstate = tuple(pub.get(N(j)) == "On" for j in range(n))
                 bad = judge_state(rule, node, pstate)
                 if bad:
                     ctx.violate(f"published:{bad}:{rule}:{op[0]}", f"{rule}: {op} in {node} published {pstate}", case)
@@ -256,7 +273,7 @@ def explore_hidden(ctx, rule, n):
     from indi import message as M
     from indi.message import one_parts
     from indi.routing import Router
-    spec = make_spec(rule, n, ["S0"] if rule == "AnyOfMany" else "S0")
+    spec = make_spec(rule, n, [N(0)] if rule == "AnyOfMany" else N(0))
     router = Router()
     drv = D.build(spec)(router=router)
     rec = devmon.RecClient()
@@ -279,7 +296,7 @@ def explore_hidden(ctx, rule, n):
             # install the node
             for e, on_, en_ in zip(els, node[0], node[1]):
                 e.enabled = True
-            vec.reset_selected_values([f"S{i}" for i, b in enumerate(node[0]) if b])
+            vec.reset_selected_values([N(i) for i, b in enumerate(node[0]) if b])
             for e, on_, en_ in zip(els, node[0], node[1]):
                 e._value = "On" if on_ else "Off"
                 e.enabled = en_
@@ -290,7 +307,7 @@ def explore_hidden(ctx, rule, n):
             ctx.case_fast(("hidden", rule, n, node, op))
             try:
                 if op[0] == "client":
-                    router.process_message(M.NewSwitchVector(device="DEV", name="SW", children=(one_parts.OneSwitch(name=f"S{op[1]}", value=op[2]),)), sender=rec)
+                    router.process_message(M.NewSwitchVector(device="DEV", name="SW", children=(one_parts.OneSwitch(name=N(op[1]), value=op[2]),)), sender=rec)
                 elif op[0] == "value":
                     els[op[1]].value = op[2]
                 elif op[0] == "hide":
@@ -336,6 +353,22 @@ def run(ctx):
             j += 1
             if ctx.mine(j):
                 explore_hidden(ctx, rule, n)
+    # the same graph with element names that are contained in one another
+    j = 200
+    for rule in RULES:
+        for n in (2, 3) if not ctx.thorough else (2, 3, 4, 5):
+            j += 1
+            if not ctx.mine(j):
+                continue
+            for scheme in (NESTED_NAMES, NESTED_NAMES_REV):
+                _NAMES[0] = scheme
+                try:
+                    explored = set()
+                    for init in initial_configs(rule, n):
+                        explore(ctx, rule, n, init, explored)
+                    ctx.count("state_graphs_with_nested_element_names")
+                finally:
+                    _NAMES[0] = PLAIN_NAMES
     i = 0
     for rule in RULES:
         for n in range(1, 6 if not ctx.thorough else 8):
@@ -359,10 +392,11 @@ def replay(ctx, case):
         return
     from indi.routing import Router
     rule, n, init, node = case["rule"], case["n"], case["init"], case.get("node")
+    _NAMES[0] = {1: NESTED_NAMES, 2: NESTED_NAMES_REV}.get(int(case.get("nested_names") or 0), PLAIN_NAMES)
     if node is None:
         explore(ctx, rule, n, tuple(init))
         return
-    default_on = [f"S{i}" for i, b in enumerate(init) if b]
+    default_on = [N(i) for i, b in enumerate(init) if b]
     if rule != "AnyOfMany":
         default_on = default_on[0] if default_on else None
     router = Router()
